@@ -149,6 +149,7 @@ func (p *Proc) exec(st *State, s ast.Stmt) flow {
 		ec := p.ec(st)
 		p.eval(ec, x.Chan)
 		v := p.eval(ec, x.Value)
+		p.stmtAsserts(st, x, "send")
 		// ghost: number of channel sends and the last value sent (as an interface value)
 		cnt := p.heapGet(st, "G:$sendcount", SInt)
 		_ = p.heapGet(st, "G:$lastsent", SIface)
@@ -765,6 +766,46 @@ func (p *Proc) loopHead(st *State, n ast.Node, body *ast.BlockStmt, extraMod []*
 		d0 = c
 	}
 	return d0
+}
+
+// stmtAsserts checks `assert send#k: expr` clauses: an assertion over the locals in scope at the
+// k-th send statement of the procedure body (source order, function literals excluded).
+func (p *Proc) stmtAsserts(st *State, x ast.Stmt, kind string) {
+	fr := p.cur()
+	if fr.contract == nil || fr.inline {
+		return
+	}
+	site := ""
+	for _, cl := range fr.contract.Clauses {
+		if cl.Kind != "assert" || !strings.HasPrefix(cl.Param, kind+"#") {
+			continue
+		}
+		if site == "" {
+			n, found := 0, 0
+			ast.Inspect(fr.fi.Body(), func(nd ast.Node) bool {
+				if _, ok := nd.(*ast.FuncLit); ok {
+					return false
+				}
+				if s, ok := nd.(*ast.SendStmt); ok {
+					n++
+					if s == x {
+						found = n
+					}
+				}
+				return true
+			})
+			site = fmt.Sprintf("%s#%d", kind, found)
+		}
+		if cl.Param != site {
+			continue
+		}
+		cec := p.specEc(st, x.Pos())
+		cec.where = cl.Where
+		g := p.eval(cec, cl.Expr)
+		p.assertFired[cl] = true
+		p.oblige(st, "callsite.assert", fmt.Sprintf("%s%s.assert", fr.prefix, site), cl.Tags, g.T, cl.Where)
+		st.assume(g.T)
+	}
 }
 
 // loopKey identifies a loop of the current frame (inlined frames have their own numbering).
